@@ -335,7 +335,7 @@ def note_bytes(enc, typ, name, desc):
     return b
 
 
-def build(cls, enc, secs, segs, rng=None, hdr=None):
+def build(cls, enc, secs, segs, rng=None, hdr=None, tables_first=False):
     """Serialise sections (dicts: sname,type,flags,addr,data|None,size,link,info,addralign,entsize) laid out
     sequentially after the program header table; section header table last.  segs: dicts with type, flags,
     align and either 'cover': [section indices] or explicit offset/vaddr/filesz/memsz."""
@@ -353,6 +353,9 @@ def build(cls, enc, secs, segs, rng=None, hdr=None):
                 offs[n] = len(shstr); shstr += n + b"\0"
     secs.append(dict(sname=b".shstrtab", type=SHT_STRTAB, flags=0, addr=0, data=shstr, size=len(shstr), link=0, info=0, addralign=1, entsize=0))
     pos = EHSIZE[cls] + PHSIZE[cls] * len(segs)
+    if tables_first:
+        shoff_first = (pos + 7) // 8 * 8
+        pos = shoff_first + SHSIZE[cls] * len(secs)
     for s in secs:
         s["name"] = offs[s["sname"]]
         al = s["addralign"] if s["addralign"] > 1 else 1
@@ -363,8 +366,12 @@ def build(cls, enc, secs, segs, rng=None, hdr=None):
             pos += len(s["data"])
         else:
             s["offset"] = pos if s["type"] == SHT_NOBITS else 0
-    shoff = (pos + 7) // 8 * 8
-    total = shoff + SHSIZE[cls] * len(secs)
+    if tables_first:
+        shoff = shoff_first
+        total = pos
+    else:
+        shoff = (pos + 7) // 8 * 8
+        total = shoff + SHSIZE[cls] * len(secs)
     outsegs = []
     for g in segs:
         g = dict(g)
@@ -402,7 +409,7 @@ def build(cls, enc, secs, segs, rng=None, hdr=None):
     return im, b
 
 
-def rich_image(rng, cls, enc, nsym=None):
+def rich_image(rng, cls, enc, nsym=None, tables_first=False):
     """An image with the table kinds the accessors read: symbols (+SysV/GNU hash), relocations, dynamic,
     notes, modinfo, arrays, version tables."""
     e = E(enc)
@@ -494,7 +501,7 @@ def rich_image(rng, cls, enc, nsym=None):
             dict(type=PT_LOAD, flags=6, align=0x1000, cover=[2, 3, 4, 6, 9, 10]),
             dict(type=PT_DYNAMIC, flags=6, align=ptr, cover=[9]),
             dict(type=PT_NOTE, flags=4, align=4, cover=[10])]
-    return build(cls, enc, secs, segs, rng)
+    return build(cls, enc, secs, segs, rng, tables_first=tables_first)
 
 
 # ------------------------------------------------------------------ structure-aware corruption
